@@ -39,16 +39,26 @@ type FindingsFile struct {
 	Findings []Finding `json:"findings"`
 }
 
+// LoadFindings reads known_findings.json and every known_findings.d/*.json
+// (same format; one file per property keeps concurrent edits apart).
 func LoadFindings() (*FindingsFile, error) {
-	b, err := os.ReadFile(filepath.Join(Root, "known_findings.json"))
-	if err != nil {
-		return nil, err
+	var all FindingsFile
+	files := []string{filepath.Join(Root, "known_findings.json")}
+	more, _ := filepath.Glob(filepath.Join(Root, "known_findings.d", "*.json"))
+	sort.Strings(more)
+	files = append(files, more...)
+	for _, p := range files {
+		b, err := os.ReadFile(p)
+		if err != nil {
+			return nil, err
+		}
+		var f FindingsFile
+		if err := json.Unmarshal(b, &f); err != nil {
+			return nil, fmt.Errorf("%s: %v", p, err)
+		}
+		all.Findings = append(all.Findings, f.Findings...)
 	}
-	var f FindingsFile
-	if err := json.Unmarshal(b, &f); err != nil {
-		return nil, err
-	}
-	return &f, nil
+	return &all, nil
 }
 
 // OpenIDs returns the ids of all open findings (the constant Dev of the
